@@ -323,7 +323,9 @@ def window_gate(ctx, rep, rule, clause):
               % (sorted(counted)[0], why), "the window closes too early (a regular job never starts) or never")
     if okinit:
         idx = init.params.index(param) - 1
-        calls = [n for n in walk_local(r.RUN.node) if isinstance(n, ast.Call) and dotted(n.func) == r.window_cls.name]
+        # (in the run itself, or in the private coroutine of the class that holds its loop)
+        calls = [n for g in r.sched.methods.values() for n in walk_local(g.node)
+                 if isinstance(n, ast.Call) and dotted(n.func) == r.window_cls.name]
         okarg = bool(calls)
         for c in calls:
             a = c.args[idx] if idx < len(c.args) else next((k.value for k in c.keywords if k.arg == param), None)
